@@ -37,13 +37,13 @@ def stepLine (u : Unit) (line : String) : Unit × String :=
       match parseMods? ms, parseTvecs? ts with
       | some mods, some tvecs =>
           if tvecs.length ≠ mods.length + 1 then (u, "bad-op") else
-          let T := Times.ofLists tvecs
+          let T := Times.ofArrays (tvecs.map List.toArray).toArray
           let fl := collect Gen.collectFuncs mods
           let p := makePlan T fl
-          let tr := trace (fun _ => 0) p
-          let fin := afterRun (finalClocks (fun _ => 0) p)
+          let tr := trace [] p
+          let fin := afterRun (finalClocks [] p)
           let owners := List.range (mods.length + 1)
-          (u, s!"ok n={fl.length} sep={showBool (separatedB T fl fl.length)} mono={showBool (strictMonoB T owners)} " ++
+          (u, s!"ok n={fl.length} sep={showBool (separatedFast T fl fl.length)} mono={showBool (strictMonoB T owners)} " ++
               s!"funcs={showList (fun (f : Func) => s!"{f.owner}:{showBool f.finish}:{f.row}") fl} " ++
               s!"plan={showList showEntry tr} final={showList (fun m => toString (fin m)) owners}")
       | _, _ => (u, "bad-op")
